@@ -63,11 +63,35 @@ func (m *RWMutex) RUnlock() { m.Unlock() }
 // Mutex has the same implementation.
 type Mutex = RWMutex
 
+// Map is sync.Map with a harness gate before every operation.
+type Map struct{ m sync.Map }
+
+func (m *Map) Load(k interface{}) (interface{}, bool) { hook("map.Load"); return m.m.Load(k) }
+func (m *Map) Store(k, v interface{})                 { hook("map.Store"); m.m.Store(k, v) }
+func (m *Map) LoadOrStore(k, v interface{}) (interface{}, bool) {
+	hook("map.LoadOrStore")
+	return m.m.LoadOrStore(k, v)
+}
+func (m *Map) LoadAndDelete(k interface{}) (interface{}, bool) {
+	hook("map.LoadAndDelete")
+	return m.m.LoadAndDelete(k)
+}
+func (m *Map) Delete(k interface{})                      { hook("map.Delete"); m.m.Delete(k) }
+func (m *Map) Range(f func(k, v interface{}) bool)       { m.m.Range(f) }
+func (m *Map) Swap(k, v interface{}) (interface{}, bool) { hook("map.Swap"); return m.m.Swap(k, v) }
+func (m *Map) CompareAndSwap(k, o, n interface{}) bool {
+	hook("map.CompareAndSwap")
+	return m.m.CompareAndSwap(k, o, n)
+}
+func (m *Map) CompareAndDelete(k, o interface{}) bool {
+	hook("map.CompareAndDelete")
+	return m.m.CompareAndDelete(k, o)
+}
+
 // Pass-through aliases so that edits using other sync types still compile.
 type (
 	WaitGroup = sync.WaitGroup
 	Once      = sync.Once
-	Map       = sync.Map
 	Pool      = sync.Pool
 	Cond      = sync.Cond
 	Locker    = sync.Locker
